@@ -276,7 +276,7 @@ def libcheck_enums():
     """enum sources of TokA / TokB exactly as compiled into libcheck (so that the model lexes the same definitions)"""
     txt = open(os.path.join(LIB, 'src', 'main.rs')).read()
     out = {}
-    for name in ('TokA', 'TokB', 'TokC', 'TokD'):
+    for name in ('TokA', 'TokB', 'TokC', 'TokD', 'TokE', 'TokF'):
         m = _re.search(r'(#\[derive\(Logos[^\n]*\n(?:#\[logos[^\n]*\n)*pub enum %s \{.*?\n\})' % name, txt, _re.S)
         out[name] = m.group(1)
     return out
@@ -452,10 +452,43 @@ def check_c14(tier, seed, log=print):
         for nexts in (0, 1, 2):
             preqs.append('CBUMP b %s %d %d' % (P.hexs(b), nexts, 2 ** 64 - 1))
     caught = 0
+    # the model of such a call (Panic.lean: nextLoopP over the captured graphs of TokE / TokF, every callback invocation panics):
+    # which call panics, and the span the unwind leaves behind
+    pcaps = P.run_capture([enums['TokE'], enums['TokF']])
+    pmodel = {}
+    if all(c is not None and c.verdict == 'ACCEPT' for c in pcaps):
+        pl = []
+        for nm, cap, withcb in (('E', pcaps[0], ('Word', 'Eq', 'E')), ('F', pcaps[1], ('Word', 'Eq', 'High'))):
+            pl += ['CASE ' + nm] + cap.dump + ['CB %d 2' % i for i, l in enumerate(cap.leaves) if l[3] in withcb]
+            for rq in preqs:
+                t = rq.split(' ')
+                if (t[1] == 's') == (nm == 'E'):
+                    pl.append('Q CPANIC %s %s' % (t[2], t[3]))
+        pans = P.run_lean(pl, nproc=0)
+        for rq in preqs:
+            t = rq.split(' ')
+            pmodel[rq] = pans.get('%s CPANIC %s %s' % ('E' if t[1] == 's' else 'F', t[2], t[3]))
+    else:
+        run.violation('setup', dict(what='libcheck token types TokE / TokF not accepted by the derive'), no_input=True)
+    panic_model_agree = 0
     for name, (binp, err) in bins.items():
         if binp is None:
             continue
         out, rc = run_lib(binp, preqs)
+        for rq in preqs:
+            v, mv = out.get(rq), pmodel.get(rq)
+            if v is None or mv is None or v == 'NOTUTF8':
+                continue
+            t = v.split(' ')
+            real = 'nocall' if v == 'NOCALL' else ('panic %s %s' % (t[2], t[3]) if len(t) >= 4 and t[1] == 'panic' else 'other')
+            want = mv if mv.startswith('panic') else 'nocall'
+            if real == want and (real == 'nocall' or t[0] == 'pre:%s-%s' % (t[2], t[3])):
+                panic_model_agree += 1
+            else:
+                tie_dis += 1
+                run.violation('api-differs', dict(config=name, request=rq, observed=v, model=mv,
+                                                  what='a call of next whose callback panics: the real lexer and the model (Panic.nextLoopP) disagree on whether a callback ran or on the span the unwind leaves behind'),
+                              key='apipanicdiff|' + rq)
         for rq in preqs:
             v = out.get(rq)
             evals += 1
@@ -482,6 +515,7 @@ def check_c14(tier, seed, log=print):
                                           history='%s calls of next, then a call of next whose callback panics (caught), then span / slice / remainder' % rq.split(' ')[3]),
                               key='apipanic|' + rq)
     run.coverage['calls_of_next_ending_in_a_caught_panic'] = caught
+    run.coverage['caught_panic_calls_agreeing_with_the_model'] = panic_model_agree
     run.coverage.update(dict(obligations=au['obligations'], discharged=au['discharged'], theorems=au['names'], axioms=au['axioms'],
                              checker_cmd=au['checker_cmd'], kernel_recheck=au.get('kernel_recheck'), trusted_base=TRUSTED_BASE,
                              evaluations=evals, distinct_nontrivial=len(nontriv), op_mix=opcount, configs=list(bins),
@@ -489,7 +523,7 @@ def check_c14(tier, seed, log=print):
                                   'run on the real Lexer (debug/release x default/forbid_unsafe; after every call span, slice == source[span], remainder == source[end..], extras are checked) and on the Lean pool model over the captured graphs of the same two definitions; non-trivial = history contains clone and morph',
                              samples=samples, model_vs_impl_disagreements=tie_dis))
     run.assumptions += ['extras are a constant carried along (the token types have no extras-mutating callbacks)',
-                        'api_in_range is proved for ordinary lexers; partial lexers are covered by the correspondence only']
+                        'api_in_range is stated for ordinary lexers and callbacks that do not bump; api_in_range_any (BumpTiles) lifts both restrictions; a call of next that ends in a caught panic is judged on the real lexer only (the model has no panicking callbacks)']
     return run.finish()
 
 
